@@ -583,6 +583,79 @@ pub fn gen(prop: &str, tier: &str, seed: u64) -> Out {
                 o.push(format!("pexists {} {}", d, ph)); o.push(format!("spec:pexists {} {}", d, ph));
             }
         }
+        "C11" => {
+            // every document function, every other argument, all 2^k text/JSONB choices: take the
+            // request streams of the other properties and wrap each doc-taking op
+            for sub in ["C05", "C06", "C13", "C04", "C12", "C14", "C03", "C08"] {
+                let o2 = gen(sub, tier, seed ^ 0x11);
+                for l in o2.lines {
+                    if l.starts_with("spec:") || l.starts_with("select ") || l.starts_with("pexists") || l.starts_with("pmatch") || l.starts_with("cmplaws") || l.starts_with("containslaws") || l.starts_with("keyorder") || l.starts_with("tostrcheck") || l.starts_with("strf64") || l.starts_with("barr") || l.starts_with("bobj") { continue; }
+                    if r.chance(if tier == "thorough" { 2 } else { 1 }, 6) {
+                        o.push(format!("tj {} {}", r.next() % 1000000, l));
+                    }
+                    // correspondence of the text branches: the model dispatches like the code
+                    if r.chance(1, 8) {
+                        let fields: Vec<&str> = l.split(' ').collect();
+                        const MODELLED: &[&str] = &["arrlen", "getidx", "getname", "getkp", "keys", "typeof", "asnull", "asbool", "asnum", "asstr", "existsall", "contains", "cmp", "concat", "arrins", "objins", "distinct", "inter", "except", "overlap", "objdel", "objpick", "travstr", "delname", "delidx", "strip", "toserde", "cmpkey", "pathexists", "getpath"];
+                        if !MODELLED.contains(&fields[0]) { continue; }
+                        if let Some(pos) = crate::ops_tj::doc_positions(fields[0]) {
+                            let mut fs: Vec<String> = fields.iter().map(|s| s.to_string()).collect();
+                            let mask = 1 + r.below((1u64 << pos.len()) - 1);
+                            let mut ok = true;
+                            for (k, p) in pos.iter().enumerate() {
+                                if mask & (1 << k) == 0 { continue; }
+                                let raw = unhex(fields[*p]).unwrap_or_default();
+                                match jsonb::from_slice(&raw).ok() {
+                                    Some(v) if !crate::gen_text::has_nan(&v) => {
+                                        let mut t = String::new();
+                                        let st = if r.chance(1, 3) { crate::gen_text::Style::Lenient } else { crate::gen_text::Style::Strict };
+                                        crate::gen_text::render_json(&mut r, &v, st, &mut t);
+                                        let t = if r.chance(1, 10) { crate::gen_text::corrupt(&mut r, t.as_bytes()) } else { t.trim_start_matches(' ').as_bytes().to_vec() };
+                                        // the claim excludes text starting with a space (read as a scalar header)
+                                        let t: Vec<u8> = t.iter().copied().skip_while(|b| *b == b' ').collect();
+                                        fs[*p] = hex(&t);
+                                    }
+                                    _ => { ok = false; }
+                                }
+                            }
+                            if ok { o.push(format!("t:{}", fs.join(" "))); }
+                        }
+                    }
+                }
+            }
+            for _ in 0..scale(tier, 300, 8000) {
+                let v = gen_value(&mut r, &c, 0);
+                if crate::gen_text::has_nan(&v) { continue; }
+                let mut t = String::new();
+                crate::gen_text::render_json(&mut r, &v, crate::gen_text::Style::Lenient, &mut t);
+                o.push(format!("t:lazyvec {}", hex(t.trim_start_matches(' ').as_bytes())));
+                o.push(format!("t:lazyvec {}", hex(&v.to_vec())));
+                o.push(format!("t:fromslice {}", hex(t.trim_start_matches(' ').as_bytes())));
+            }
+            for (t, d) in [("-0", "toserde"), ("\"\\ud800\"", "toserde"), ("\t1", "typeof"), ("\n[1]", "typeof"), ("[12345678]", "contains"), ("\"abc0xy\"", "asstr"), ("12345678", "asu64")] {
+                let v = jsonb::parse_value(t.as_bytes()).unwrap();
+                if d == "contains" { o.push(format!("tj 1 contains {} {}", hex(&v.to_vec()), hex(&jsonb::parse_value(b"12345678").unwrap().to_vec()))); }
+                else { o.push(format!("tj 1 {} {}", d, hex(&v.to_vec()))); }
+                o.push(format!("t:{} {}", if d == "contains" { "asnum" } else if d == "asu64" { "asnum" } else { d }, hex(t.as_bytes())));
+            }
+        }
+        "C19" => {
+            let fc = c.clone().finite();
+            for _ in 0..scale(tier, 1500, 40000) {
+                let v = gen_value(&mut r, &fc, 0);
+                o.doc_stats(&v);
+                let d = hex(&v.to_vec());
+                o.push(format!("toserde {}", d));
+                o.push(format!("spec:toserde {}", d));
+                o.push(format!("toserdeobj {}", d));
+                o.push(format!("treeserde {}", show_value(&v)));
+                o.push(format!("serdecheck {}", d));
+                let j: serde_json::Value = v.clone().into();
+                o.push(format!("fromserde {}", crate::ops_serde::show_sj(&j)));
+            }
+            // non-finite numbers are refused by the byte walker (error, not a panic)
+            for b in NONFINITE_BITS { let v = Value::Array(vec![Value::Number(Number::Float64(f64::from_bits(*b)))]); o.push(format!("toserde {}", hex(&v.to_vec()))); }
+        }
         "C17" => {
             for _ in 0..scale(tier, 1200, 40000) {
                 let v = gen_value(&mut r, &c, 0);
